@@ -23,9 +23,17 @@ package main
 //@   props C12
 //@   maprange 0: keyed-write
 //@   maprange 1: argued the result order is random by design; its only consumer builds SchemaMappings, whose readers take the first entry with a given SchemaID, and the ids are unique (they are the keys of a set)
+// Every per-schema setting falls back to its global default for an id that only
+// some of --schema-package/--schema-output/--schema-root-type mention (C20: "in the
+// output file and Go package mapped to its $id (or the defaults)"; C16:
+// --schema-root-type changes only identifiers). RootType has no global default:
+// it is derived from the file name later.
 //@ func init$1
 //@   props C12 C16 C20
 //@   iteration-local SchemaMapping
+//@   field-from SchemaMapping.PackageName map:schemaPackages global:defaultPackage
+//@   field-from SchemaMapping.OutputName map:schemaOutputs global:defaultOutput
+//@   field-from SchemaMapping.RootType map:schemaRootTypes
 //@   maprange 0: argued the order only decides in which order the output files are written; their names and contents come from Sources()
 
 // ---- the flag table (C16): name, variable, kind, default -----------------------
